@@ -86,6 +86,17 @@ def synth(name, pmax=14_000.0, step=10.0, frame=False):
     return d
 
 
+def synth_desc(name, frame=False):
+    """The same exact family with its rows in *descending* pressure order (legal: the wrapper's
+    interpolators sort their abscissae)."""
+    d = {k: v[::-1].copy() for k, v in synth(name).items()}
+    if frame:
+        import pandas as pd  # noqa: PLC0415
+
+        return pd.DataFrame(d)
+    return d
+
+
 def synth_density_ratio(name, p_lo, p_hi):
     z = _S[name][0]
     return float((p_lo / z(np.float64(p_lo))) / (p_hi / z(np.float64(p_hi))))
@@ -125,7 +136,7 @@ def alpha_exact(name):
 TABLES = {
     "T_ship_gas": ship_gas, "T_hay": hay, "T_ship_oil": ship_oil,
     "S_ideal": lambda **k: synth("S_ideal", **k), "S_zlin": lambda **k: synth("S_zlin", **k),
-    "S_zdip": lambda **k: synth("S_zdip", **k),
+    "S_zdip": lambda **k: synth("S_zdip", **k), "S_zdip_desc": lambda **k: synth_desc("S_zdip", **k),
     "A_const": lambda **k: alpha_family("A_const", **k), "A_rise": lambda **k: alpha_family("A_rise", **k),
     "A_fall": lambda **k: alpha_family("A_fall", **k), "A_kink": lambda **k: alpha_family("A_kink", **k),
     "A_kink1e3": lambda **k: alpha_family("A_kink1e3", **k),
@@ -139,7 +150,7 @@ def table(name, frame=False):
 
 def table_range(name):
     t = table(name)
-    return float(t["pressure"][0]), float(t["pressure"][-1])
+    return float(np.min(t["pressure"])), float(np.max(t["pressure"]))
 
 
 _FLUIDS = {}
